@@ -622,7 +622,7 @@ def job_loop(j, seed):
     ob = C.prove('loop:documented model product order; first success wins; otherwise the first candidate', C.B.const(bool(ok)))
     obs.append(ob_dict(ob))
     if not ok:
-        cands.append(('C17:loop', case, 'model order'))
+        cands.append(('C17:loop', {**case, 'what': 'order'}, 'model order'))
     return {'obligations': obs, 'candidates': cands, 'paths': len(paths)}
 
 
@@ -744,8 +744,10 @@ def replay_real(case):
                 bad.append(f'm={m}: assessment {res[0].assessment}')
         except Exception as e:  # noqa: BLE001
             bad.append(f'window with {m} points: fit_peaks raises {type(e).__name__}: {e}')
-    elif kind == 'bkgstats':
+    elif kind == 'bkgstats' or (kind == 'loop' and case.get('what') == 'order'):
         import warnings
+
+        case = {'peaks': ['gaussian', 'lorentzian'], 'backgrounds': ['linear', 'quadratic'], **case}
 
         produced, assessed = [], []
         real_perform, real_assess = fp._perform_fit, fp._assess_fit
@@ -770,6 +772,16 @@ def replay_real(case):
                 peaks.fit_peaks(da, peak_estimates=sc.array(dims=['x'], values=[5.0]), windows=sc.scalar(6.0), background=tuple(case['backgrounds']), peak=tuple(case['peaks']))
         finally:
             fp._perform_fit, fp._assess_fit = real_perform, real_assess
+        # candidates are tried in the documented product order: peak models outermost, background models varied first
+        names = {'gaussian': 'GaussianModel', 'lorentzian': 'LorentzianModel', 'pseudo_voigt': 'PseudoVoigtModel'}
+        nbkg = {'linear': 2, 'quadratic': 3}
+        want_order = [(names[p_], nbkg[b_]) for p_ in case['peaks'] for b_ in case['backgrounds']]
+        got_order = []
+        for peak_, st, bst in assessed:
+            full_ = [k_ for k_, s_ in produced if s_ is st]
+            got_order.append((type(peak_).__name__, len(full_[0] - peak_.param_names) if full_ else -1))
+        if got_order != want_order[:len(got_order)]:
+            bad.append(f'candidates assessed in the order {got_order}, documented order {want_order}')
         for peak_, st, bst in assessed:
             full = [k_ for k_, s_ in produced if s_ is st]
             if not full:
